@@ -251,6 +251,8 @@ def run(argv):
             chk.hist[f"line-route:{fmt}"] += 1
             strings.append(txt)
             oracle_eval(chk, rng, fmt, code, "H", a, b, c, txt, case)
+    # ---- the same expressions as they arrive in the generated EvalRates of either solver
+    rendered_rates_check(chk, rng)
     # ---- all strings must compile as C expressions
     syntax_check(chk, strings)
     # ---- model correspondence
@@ -275,6 +277,51 @@ def run(argv):
                 else:
                     chk.traces += 1
     return chk.finish()
+
+
+def rendered_rates_check(chk, rng):
+    """`rateexpr()` is what the reaction computes; what the generated library computes is the statement `k[i] = …;` that
+    arrives in `EvalRates`.  A network with one reaction per database law is rendered for both solvers: every reaction must
+    have its own statement, in order, whose expression is the reaction's rate expression token by token."""
+    from naunet.network import Network
+    from .ode_checks import reset_species_state
+    from .rendering import Rendered, render
+    picks = [("kida", 1), ("kida", 2), ("kida", 3), ("kida", 4), ("kida", 5), ("umist", "CP"), ("umist", "NN"), ("umist", "CR"),
+             ("umist", "PH"), ("uclchem", "MA"), ("uclchem", "CRP")]
+    for first_k in (0, 5):          # two networks: another reaction comes first (the statement right after the function's preamble)
+        order = picks[first_k:] + picks[:first_k]
+        reacs, want = [], []
+        reset_species_state()
+        for fmt, code in order:
+            try:
+                with silenced():
+                    r1, _, _ = make_reaction(fmt, code, "H", (2.5e-9, -0.5, 12.5))
+                    want.append(r1.rateexpr(None))
+                    reacs.append(r1)
+            except Exception:
+                continue
+        if len(reacs) < 3:
+            continue
+        for b in ("dense", "rosenbrock4"):
+            d = chk.scratch / f"rendered-{first_k}-{b}"
+            try:
+                with silenced():
+                    net = Network(reacs)
+                    render(net, b, d)
+                got = Rendered(d, b).rates("k")
+            except Exception as e:
+                chk.hist["rendered-rates-refused:" + type(e).__name__] += 1
+                continue
+            chk.count(("rendered-rates", first_k, b), nontrivial=True)
+            chk.hist["rendered-rates"] += 1
+            gi = {i: cparse.token_text(rhs) for i, rhs, _ in got}
+            for i, w in enumerate(want):
+                if gi.get(i) != cparse.token_text(w):
+                    chk.violation({"kind": "rendered-rate-differs", "backend": b, "position": "first" if i == 0 else "later"},
+                                  f"{b}: the statement for reaction {i} ({order[i][0]} {order[i][1]}) in the generated EvalRates is "
+                                  f"{'missing' if i not in gi else 'not the rate expression of that reaction'}", input={"order": [list(map(str, o)) for o in order]},
+                                  expected=w, observed=gi.get(i))
+                    break
 
 
 def phys(rng):
